@@ -1,1 +1,177 @@
-"""operation handlers (registered on import)"""
+"""Analysis battery (C11 c): every public getter, run with seeded parameters, results in
+canonical form so that sessions which differ only in hash seed / pool use / schedule can be
+compared."""
+from __future__ import annotations
+
+import json
+import os
+from typing import Any, Dict, List
+
+from . import simenv
+from .canon import canon_value
+from .session import State, op
+
+DECODE_COLS = ("name", "cat", "user_annotation")
+
+
+def _row_key(row: Dict[str, Any]) -> str:
+    parts = []
+    for k in sorted(row):
+        v = row[k]
+        if isinstance(v, float):
+            v = float(f"{v:.6g}")
+        parts.append((k, v))
+    return json.dumps(parts, sort_keys=True, default=str)
+
+
+def canon_result(x: Any, sym: List[str]) -> Any:
+    import pandas as pd
+    if x is None:
+        return None
+    if isinstance(x, pd.DataFrame):
+        df = x
+        if isinstance(df.columns, pd.MultiIndex):
+            df = df.copy()
+            df.columns = ["|".join(str(c) for c in col) for col in df.columns]
+        if not isinstance(df.index, pd.RangeIndex):
+            names = [n if n is not None else f"idx{i}" for i, n in enumerate(df.index.names)]
+            df = df.copy()
+            df.index = df.index.set_names(names) if isinstance(df.index, pd.MultiIndex) else df.index.rename(names[0])
+            df = df.reset_index(drop=False) if not set(names) & set(map(str, df.columns)) else df.reset_index(drop=True)
+        rows = []
+        cols = [str(c) for c in df.columns]
+        data = {str(c): df[c].tolist() for c in df.columns}
+        kinds = {str(c): getattr(df[c].dtype, "kind", "O") for c in df.columns}
+        for i in range(len(df)):
+            row = {}
+            for c in cols:
+                v = canon_value(data[c][i])
+                if c in DECODE_COLS and kinds[c] in "iuf" and isinstance(v, int) and not isinstance(v, bool):
+                    v = sym[v] if 0 <= v < len(sym) else v
+                row[c] = v
+            rows.append(row)
+        rows.sort(key=_row_key)
+        return {"__df__": rows, "columns": sorted(cols)}
+    if isinstance(x, pd.Series):
+        items = [[str(k), canon_value(v)] for k, v in x.items()]
+        items.sort(key=lambda kv: kv[0])
+        return {"__series__": items}
+    if isinstance(x, dict):
+        return {str(k): canon_result(v, sym) for k, v in sorted(x.items(), key=lambda kv: str(kv[0]))}
+    if isinstance(x, (list, tuple)):
+        return [canon_result(v, sym) for v in x]
+    return canon_value(x)
+
+
+def _call(fn, sym: List[str]) -> Any:
+    try:
+        return canon_result(fn(), sym)
+    except Exception as exc:  # noqa: BLE001
+        if type(exc).__name__ in ("SimDeadlock", "SimHarnessError"):
+            raise
+        return {"__exc__": type(exc).__name__}
+
+
+@op("battery")
+def op_battery(state: State, a: Dict[str, Any], env: simenv.SimEnv) -> Any:
+    """Run the getters named in a["getters"] (list of {"g": name, ...params})."""
+    ta = state.ta
+    t = state.trace
+    sym = list(t.symbol_table.get_sym_table())
+    ranks = sorted(t.traces.keys())
+    out: Dict[str, Any] = {}
+    for gi, g in enumerate(a["getters"]):
+        name = g["g"]
+        key = f"{gi}:{name}"
+        env.log("getter", n=gi, g=name)
+        rk = [r for r in g.get("ranks", ranks) if r in ranks] or ranks[:1]
+        if name == "temporal_breakdown":
+            out[key] = _call(lambda: ta.get_temporal_breakdown(visualize=False), sym)
+        elif name == "gpu_kernel_breakdown":
+            out[key] = _call(lambda: ta.get_gpu_kernel_breakdown(
+                visualize=False, duration_ratio=g.get("duration_ratio", 0.8), num_kernels=g.get("num_kernels", 10),
+                include_memory_kernels=g.get("include_memory_kernels", True)), sym)
+        elif name == "idle_time_breakdown":
+            out[key] = _call(lambda: ta.get_idle_time_breakdown(
+                ranks=rk, visualize=False, show_idle_interval_stats=g.get("stats", True),
+                consecutive_kernel_delay=g.get("delay", 30)), sym)
+        elif name == "comm_comp_overlap":
+            out[key] = _call(lambda: ta.get_comm_comp_overlap(visualize=False), sym)
+        elif name == "launch_stats":
+            out[key] = _call(lambda: ta.get_cuda_kernel_launch_stats(
+                ranks=rk, include_memory_events=g.get("mem", True), visualize=False), sym)
+        elif name == "queue_length_series":
+            out[key] = _call(lambda: ta.get_queue_length_time_series(rk), sym)
+        elif name == "queue_length_summary":
+            out[key] = _call(lambda: ta.get_queue_length_summary(rk), sym)
+        elif name == "blocked_on_full_queue":
+            out[key] = _call(lambda: ta.get_time_spent_blocked_on_full_queue(
+                ta.get_queue_length_time_series(rk), g.get("max_queue", 2)), sym)
+        elif name == "memory_bw_series":
+            out[key] = _call(lambda: ta.get_memory_bw_time_series(rk), sym)
+        elif name == "memory_bw_summary":
+            out[key] = _call(lambda: ta.get_memory_bw_summary(rk), sym)
+        elif name == "stragglers":
+            out[key] = _call(lambda: ta.get_potential_stragglers(num_candidates=g.get("k", 2)), sym)
+        elif name == "profiler_steps":
+            out[key] = _call(lambda: ta.get_profiler_steps(), sym)
+        elif name == "kernels_with_annotations":
+            def f():
+                df = ta.get_gpu_kernels_with_user_annotations(rk[0], expand_names=g.get("expand", True),
+                                                              shortern_names=g.get("short", True))
+                if df is None:
+                    return None
+                keep = [c for c in ("index", "ts", "dur", "stream", "name", "user_annotation", "s_name",
+                                    "s_user_annotation") if c in df.columns]
+                return df[keep].reset_index(drop=True)
+            out[key] = _call(f, sym)
+        elif name == "user_annotation_breakdown":
+            out[key] = _call(lambda: ta.get_gpu_user_annotation_breakdown(
+                use_gpu_annotation=g.get("gpu", True), visualize=False), sym)
+        elif name == "frequent_sequences":
+            def f2():
+                od = os.path.join(state.world_dir, g.get("out", "seq_out"))
+                os.makedirs(od, exist_ok=True)
+                return ta.get_frequent_cuda_kernel_sequences(
+                    operator_name=g["operator"], output_dir=od, min_pattern_len=g.get("min_len", 1),
+                    rank=rk[0], top_k=g.get("top_k", 5), visualize=False)
+            out[key] = _call(f2, sym)
+        elif name == "call_graph":
+            def f3():
+                from hta.common.trace_call_graph import CallGraph
+                CallGraph(t, ranks=rk)
+                df = t.get_trace(rk[0])
+                cols = [c for c in ("index", "parent", "depth", "height", "num_kernels", "kernel_dur_sum",
+                                    "kernel_span", "first_kernel_start", "last_kernel_end") if c in df.columns]
+                return df[cols].reset_index(drop=True)
+            out[key] = _call(f3, sym)
+        elif name == "trace_diff":
+            def f4():
+                from hta.trace_diff import DeviceType, TraceDiff
+                dt = {"cpu": DeviceType.CPU, "gpu": DeviceType.GPU, "all": DeviceType.ALL}[g.get("device", "all")]
+                return TraceDiff.compare_traces(state.world_dir, state.world_dir, device_type=dt,
+                                                use_short_name=g.get("short", False))
+            out[key] = _call(f4, sym)
+        elif name == "critical_path":
+            def f5():
+                res = ta.critical_path_analysis(rank=rk[0], annotation=g.get("annotation", "ProfilerStep"),
+                                                instance_id=g.get("instance", 0))
+                if res is None:
+                    return None
+                cp, ok = res
+                bd = cp.get_critical_path_breakdown()
+                total = sum(cp.edges[u, v]["weight"] for u, v in zip(cp.critical_path_nodes, cp.critical_path_nodes[1:]))
+                if bd is not None:
+                    bd = bd[[c for c in ("event_idx", "duration", "type", "s_name", "pid", "tid", "stream", "bound_by")
+                             if c in bd.columns]]
+                return {"ok": bool(ok), "n_nodes": cp.number_of_nodes(), "n_edges": cp.number_of_edges(),
+                        "total": total, "breakdown": bd, "summary": cp.summary()}
+            out[key] = _call(f5, sym)
+        else:
+            raise simenv_error(f"unknown getter {name}")
+    return {"results": out}
+
+
+def simenv_error(msg: str) -> Exception:
+    from .simpool import SimHarnessError
+    return SimHarnessError(msg)
